@@ -16,6 +16,7 @@ import itertools
 import json
 import os
 import random
+import re
 import shutil
 import tempfile
 from fractions import Fraction
@@ -27,6 +28,19 @@ from .. import fx_factory as FX
 
 
 # ---------------------------------------------------------------------------- spec <-> python values
+# The specification writes every character outside printable ASCII as the token <U+XXXX>; tok / detok translate
+# one to one (no stored string contains the literal text "<U+").
+_TOK = re.compile(r'<U\+([0-9A-F]{4,6})>')
+
+
+def detok(s):
+    return _TOK.sub(lambda m: chr(int(m.group(1), 16)), s)
+
+
+def tok(s):
+    return ''.join(c if 32 <= ord(c) < 127 else '<U+%04X>' % ord(c) for c in s)
+
+
 def to_py(v, rng=None):
     k = v['k']
     if k == 'int':
@@ -38,7 +52,7 @@ def to_py(v, rng=None):
     if k == 'bool':
         return bool(v['n'])
     if k == 'str':
-        return v['v']
+        return detok(v['v'])
     if k == 'arr':
         dt = {'float': np.float64, 'int': np.int64, 'bool': np.bool_}[v['dt']]
         return np.array([d[0] / d[1] for d in v['data']], dtype=dt).reshape(tuple(v['shape']))
@@ -78,12 +92,12 @@ def read_tree(g):
             continue
         val = it[()]
         if it.dtype.kind in ('O', 'S') and it.shape == ():
-            m[name] = dict(n='string', v=val.decode() if isinstance(val, bytes) else str(val))
+            m[name] = dict(n='string', v=tok(val.decode('utf-8', 'replace') if isinstance(val, bytes) else str(val)))
         elif it.dtype.kind == 'S':
             if len(it.shape) != 2 or it.shape[1] != 1:
                 m[name] = dict(n='strarr?', shape=list(it.shape))
             else:
-                m[name] = dict(n='strarr', data=[x[0].decode() for x in val])
+                m[name] = dict(n='strarr', data=[tok(x[0].decode('utf-8', 'replace')) for x in val])
         elif it.shape == ():
             m[name] = dict(n='scalar', dt=dt_of(it.dtype), v=fr(val))
         else:
@@ -126,6 +140,10 @@ def kinds_in(v, acc=None):
             tag = v['k']
             if any(x['k'] == 'str' for x in sub):
                 tag += '-str'
+                if any(x['k'] == 'str' and '<U+' in x['v'] for x in sub):
+                    acc.add(tag + '-nonascii')
+                if any(x['k'] == 'str' and x['v'].strip(' ') == '' for x in sub):
+                    acc.add(tag + '-blank')
             elif any(x['k'] == 'dict' for x in sub):
                 tag += '-dict'
             else:
@@ -141,6 +159,11 @@ def kinds_in(v, acc=None):
                 kinds_in(x, acc)
         else:
             acc.add(v['k'])
+            if v['k'] == 'str':
+                if '<U+' in v['v']:
+                    acc.add('str-nonascii')
+                if v['v'].strip(' ') == '':
+                    acc.add('str-blank')
     return acc
 
 
@@ -163,7 +186,7 @@ def dict_cls(items):
     ks = set()
     for x in (items.values() if isinstance(items, dict) else []):
         kinds_in(x, ks)
-    rag = sorted(k for k in ks if 'ragged' in k or 'dict' in k.split('-')[-1:] )
+    rag = sorted(k for k in ks if 'ragged' in k or 'dict' in k.split('-')[-1:] or k.endswith(('-nonascii', '-blank')))
     return 'dict:' + ('+'.join(rag) if rag else 'plain')
 
 
@@ -206,7 +229,13 @@ def rand_value(rng, depth):
         d = [list(map(int, (Fraction(a, b).numerator, Fraction(a, b).denominator))) for a, b in d]
         return dict(k='arr', dt=dt, shape=shape, data=d)
 
-    word = lambda: ''.join(rng.choice('abcXYZ012-_ ') for _ in range(rng.randint(1, 12))).strip() or 'w'
+    def word():
+        # value alphabet of stored strings: ASCII, blanks kept as they are, newline / tab, accents, typographic
+        # quotes, micro sign, CJK; the empty string; at most 16 characters (<= 64 bytes of UTF-8)
+        if rng.random() < 0.08:
+            return ''
+        alpha = 'abcXYZ012-_ ' if rng.random() < 0.5 else 'abZ0 _-{}\\"\n\t \u00e9\u00e7\u00fc\u2019\u201c\u201d\u00b5\u03bb\u65e5'
+        return tok(''.join(rng.choice(alpha) for _ in range(rng.randint(1, 16))))
     if depth > 0 and r < 0.22:
         return dict(k='dict', items={k: rand_value(rng, depth - 1) for k in rng.sample(['alpha', 'beta', 'gamma', 'k', 'Zz'], rng.randint(0, 3))})
     if r < 0.35:
@@ -247,8 +276,9 @@ def run_dict_traces(ctx, n, tmp, rng):
 
 # ---------------------------------------------------------------------------- models
 def opacities():
-    from taurex.cache import OpacityCache
+    from taurex.cache import OpacityCache, CIACache
     from ..fixtures import GridOpacity
+    from ..fx_model import FixtureCIA
     OpacityCache().clear_cache()
     wn = np.linspace(400.0, 2000.0, 33)
     t = np.array([200.0, 1000.0, 2500.0])
@@ -256,6 +286,9 @@ def opacities():
     rs = np.random.RandomState(11)
     for m in ('H2O', 'CH4'):
         OpacityCache().add_opacity(GridOpacity(m, wn, t, p, 1e-22 * (1 + rs.rand(3, 3, 33))))
+    CIACache().cia_dict = {}
+    for n, pair in enumerate(('H2-He', 'H2-H2')):
+        CIACache().add_cia(FixtureCIA(pair, wn, t, (n + 1) * 1e-50 * (1 + rs.rand(3, 33))))
 
 
 NL = 30
@@ -286,6 +319,9 @@ CONTRIB_SETS = [('AbsorptionContribution',), ('AbsorptionContribution', 'Rayleig
                 ('AbsorptionContribution', 'RayleighContribution', 'FlatMieContribution')]
 PLANET = dict(planet_mass=1.3, planet_radius=0.9, planet_distance=0.05, impact_param=0.3, orbital_period=3.5, albedo=0.2, transit_time=4000.0)
 STAR = dict(temperature=5500.0, radius=0.8, distance=12.0, magnitudeK=9.0, mass=0.9, metallicity=1.5)
+PRESSURE = dict(nlayers=NL, atm_min_pressure=1e-1, atm_max_pressure=1e6)
+# components that take their values from an external file or a positional array (proposed finding L-C16g)
+EXTERNAL = ('TemperatureFile', 'FilePressureProfile', 'ArrayPressureProfile', 'ChemistryFile')
 
 
 def classes_by_name():
@@ -298,30 +334,195 @@ def classes_by_name():
     return out
 
 
-def build_model(combo, classes):
+def base_desc(**over):
+    """One complete model description; every part is (class name, constructor keywords)."""
+    d = dict(model=('TransmissionModel', {}), temp=('Isothermal', dict(T=1234.0)), press=('SimplePressureProfile', dict(PRESSURE)),
+             planet=('Planet', dict(PLANET)), star=('BlackbodyStar', dict(STAR)),
+             chem=('TaurexChemistry', dict(fill_gases=['H2', 'He'], ratio=0.2)),
+             gases=[('ConstantGas', dict(molecule_name='H2O', mix_ratio=2e-4)),
+                    ('ConstantGas', dict(molecule_name='N2', mix_ratio=3e-3))],      # N2 has no opacity: an *inactive* gas
+             contribs=[('AbsorptionContribution', {})])
+    d.update(over)
+    return d
+
+
+def combo_desc(combo):
+    m1, m2 = ('CH4', 'H2O') if combo['gas2'] == 'PowerGas/auto' else ('H2O', 'CH4')   # 'auto' coefficients exist for H2O only
+    return base_desc(model=(combo['model'], MODELS[combo['model']]), temp=(combo['temp'], TEMPS[combo['temp']]),
+                     chem=('TaurexChemistry', dict(fill_gases=['H2', 'He'], ratio=0.2, base_metallicty=0.02)),
+                     gases=[(combo['gas1'], dict(GASES[combo['gas1']], molecule_name=m1)), (combo['gas2'], dict(GASES[combo['gas2']], molecule_name=m2)),
+                            ('ConstantGas', dict(molecule_name='N2', mix_ratio=3e-3))],
+                     contribs=[(c, CONTRIBS[c]) for c in combo['contribs']])
+
+
+def build_desc(desc, classes):
     def K(name):
         base = name.split('/')[0]
         if base not in classes:
             raise KeyError(base)
         return classes[base][1]
-    chem = K('TaurexChemistry')(fill_gases=['H2', 'He'], ratio=0.2, base_metallicty=0.02)
-    m1, m2 = ('CH4', 'H2O') if combo['gas2'] == 'PowerGas/auto' else ('H2O', 'CH4')   # 'auto' coefficients exist for H2O only
-    chem.addGas(K(combo['gas1'])(molecule_name=m1, **GASES[combo['gas1']]))
-    chem.addGas(K(combo['gas2'])(molecule_name=m2, **GASES[combo['gas2']]))
-    chem.addGas(K('ConstantGas')(molecule_name='N2', mix_ratio=3e-3))      # no opacity registered: an *inactive* gas
-    temp = K(combo['temp'])(**TEMPS[combo['temp']])
-    press = K('SimplePressureProfile')(nlayers=NL, atm_min_pressure=1e-1, atm_max_pressure=1e6)
-    model = K(combo['model'])(planet=K('Planet')(**PLANET), star=K('BlackbodyStar')(**STAR), chemistry=chem,
-                              temperature_profile=temp, pressure_profile=press, **MODELS[combo['model']])
-    for c in combo['contribs']:
-        model.add_contribution(K(c)(**CONTRIBS[c]))
+
+    def py(kw):
+        return {k: (np.array(v[1]) if isinstance(v, tuple) and len(v) == 2 and v[0] == 'ndarray' else v) for k, v in kw.items()}
+    chem = K(desc['chem'][0])(**py(desc['chem'][1]))
+    for g, kw in desc['gases']:
+        chem.addGas(K(g)(**py(kw)))
+    parts = dict(planet=K(desc['planet'][0])(**py(desc['planet'][1])), star=K(desc['star'][0])(**py(desc['star'][1])), chemistry=chem,
+                 temperature_profile=K(desc['temp'][0])(**py(desc['temp'][1])))
+    if desc['press'] is not None:
+        parts['pressure_profile'] = K(desc['press'][0])(**py(desc['press'][1]))
+    model = K(desc['model'][0])(**parts, **py(desc['model'][1]))
+    for c, kw in desc['contribs']:
+        model.add_contribution(K(c)(**py(kw)))
     model.build()
     return model
 
 
+def build_model(combo, classes):
+    return build_desc(combo_desc(combo), classes)
+
+
+# ---- the component sweep: EVERY built-in component, DISTINCT non-default values for EVERY constructor keyword
+def sweep_files(tmp):
+    """External files for the file-configured components."""
+    f = {}
+    f['tp'] = os.path.join(tmp, 'sweep_tp.csv')
+    with open(f['tp'], 'w') as o:
+        o.write('# P[bar],T[K]\n')
+        for p, t in zip(np.logspace(1, -6, 12), np.linspace(1500.0, 600.0, 12)):
+            o.write('%r,%r\n' % (float(p), float(t)))
+    f['p'] = os.path.join(tmp, 'sweep_p.csv')
+    with open(f['p'], 'w') as o:
+        o.write('# x,P[bar]\n')
+        for p in np.logspace(1, -6, NL):
+            o.write('0,%r\n' % float(p))
+    f['chem'] = os.path.join(tmp, 'sweep_chem.dat')
+    np.savetxt(f['chem'], np.column_stack([np.full(NL, 2e-4), np.full(NL, 3e-3), np.full(NL, 1 - 2e-4 - 3e-3)]))
+    return f
+
+
+def sweep_table(files):
+    """kind, class, 'all' = a distinct non-default value for every constructor keyword, required = keywords every
+    variant needs, groups = keywords that are only valid together, exempt = keywords left out (with the reason),
+    extra = further named variants, singles = whether the one-keyword-at-a-time variants are run."""
+    cov = [[float(np.exp(-abs(i - j) / 3.0)) for j in range(NL)] for i in range(NL)]
+    hm_gases = [('ConstantGas', dict(molecule_name='H2O', mix_ratio=2e-4)), ('ConstantGas', dict(molecule_name='H', mix_ratio=3e-3)),
+                ('ConstantGas', dict(molecule_name='e-', mix_ratio=3e-5))]
+    T = []
+
+    def add(kind, cls, all_, required=(), groups=(), exempt=None, extra=None, singles=True, over=None):
+        T.append(dict(kind=kind, cls=cls, all=all_, required=tuple(required), groups=tuple(groups), exempt=exempt or {},
+                      extra=extra or {}, singles=singles, over=over or {}))
+    add('temperature', 'Isothermal', dict(T=1234.0))
+    add('temperature', 'Guillot2010', dict(TEMPS['Guillot2010']))
+    add('temperature', 'NPoint', dict(T_surface=1600.0, T_top=700.0, P_surface=5e5, P_top=2.0, temperature_points=[1200.0, 900.0],
+                                      pressure_points=[1e4, 1e2], smoothing_window=5, limit_slope=5000.0),
+        groups=[('temperature_points', 'pressure_points')])
+    add('temperature', 'Rodgers2000', dict(temperature_layers=list(np.linspace(1500.0, 600.0, NL)), correlation_length=4.0, covariance_matrix=('ndarray', cov)),
+        required=['temperature_layers'])
+    add('temperature', 'TemperatureFile', dict(filename=files['tp'], skiprows=1, temp_col=1, press_col=0, press_units='bar', delimiter=',', reverse=True),
+        exempt=dict(temp_units='kelvin is the only temperature unit in use'), singles=False)
+    add('chemistry', 'TaurexChemistry', dict(fill_gases=['H2', 'He', 'Ar'], ratio=[0.2, 0.05], derived_ratios=['C/O'], base_metallicty=0.02),
+        groups=[('fill_gases', 'ratio')], extra={'ratio-scalar': dict(ratio=0.2)})
+    add('chemistry', 'ChemistryFile', dict(gases=['H2O', 'N2', 'H2'], filename=files['chem']), singles=False, over=dict(gases=[]))
+    add('gas', 'ConstantGas', dict(mix_ratio=2e-4))
+    add('gas', 'TwoLayerGas', dict(GASES['TwoLayerGas']))
+    add('gas', 'TwoPointGas', dict(GASES['TwoPointGas']), singles=False)
+    add('gas', 'PowerGas', dict(GASES['PowerGas']), extra={'auto': {}})
+    add('gas', 'ArrayGas', dict(mix_ratio_array=[1e-3, 1e-4, 1e-6]))
+    add('pressure', 'SimplePressureProfile', dict(nlayers=25, atm_min_pressure=2e-1, atm_max_pressure=5e5))
+    add('pressure', 'ArrayPressureProfile', dict(array=('ndarray', [float(x) for x in np.logspace(0.0, 5.5, NL)]), reverse=True), singles=False)
+    add('pressure', 'FilePressureProfile', dict(filename=files['p'], usecols=1, skiprows=1, units='bar', delimiter=',', reverse=True), singles=False)
+    add('planet', 'Planet', dict(PLANET), exempt=dict(planet_sma='documented alias of planet_distance, given in its own variant'),
+        extra={'sma': dict(PLANET, planet_sma=0.07, planet_distance=None)})
+    add('star', 'BlackbodyStar', dict(STAR), over=dict(model=('EmissionModel', dict(ngauss=3))))
+    model_exempt = {k: 'given through the pressure profile object (own variant)' for k in ('nlayers', 'atm_min_pressure', 'atm_max_pressure')}
+    own_p = dict(nlayers=25, atm_min_pressure=2e-1, atm_max_pressure=5e5)
+    add('model', 'TransmissionModel', dict(new_path_method=True), exempt=model_exempt, extra={'own-pressure': dict(own_p, new_path_method=True)})
+    add('model', 'EmissionModel', dict(ngauss=3), exempt=model_exempt, extra={'own-pressure': dict(own_p, ngauss=5)})
+    add('model', 'DirectImageModel', dict(ngauss=3), exempt=model_exempt, extra={'own-pressure': dict(own_p, ngauss=5)})
+    add('contribution', 'AbsorptionContribution', {})
+    add('contribution', 'RayleighContribution', {})
+    add('contribution', 'SimpleCloudsContribution', dict(clouds_pressure=2e3))
+    add('contribution', 'CIAContribution', dict(cia_pairs=['H2-He', 'H2-H2']), extra={'one-pair': dict(cia_pairs=['H2-H2'])})
+    add('contribution', 'FlatMieContribution', dict(CONTRIBS['FlatMieContribution']))
+    add('contribution', 'LeeMieContribution', dict(CONTRIBS['LeeMieContribution']))
+    add('contribution', 'HydrogenIon', {}, over=dict(gases=hm_gases))
+    return T
+
+
+def sweep_desc(row, kw):
+    kind, cls = row['kind'], row['cls']
+    over = dict(row['over'])
+    if kind == 'temperature':
+        over['temp'] = (cls, kw)
+    elif kind == 'pressure':
+        over['press'] = (cls, kw)
+    elif kind == 'chemistry':
+        over['chem'] = (cls, kw)
+    elif kind == 'gas':
+        over['gases'] = [(cls, dict(kw, molecule_name='H2O')), ('ConstantGas', dict(molecule_name='N2', mix_ratio=3e-3))]
+    elif kind in ('planet', 'star'):
+        over[kind] = (cls, {k: v for k, v in kw.items() if v is not None})
+    elif kind == 'model':
+        over['model'] = (cls, kw)
+        if 'nlayers' in kw:
+            over['press'] = None
+    elif kind == 'contribution':
+        over['contribs'] = [('AbsorptionContribution', {})] + ([(cls, kw)] if cls != 'AbsorptionContribution' else [])
+    return base_desc(**over)
+
+
+def sweep_variants(row):
+    """(variant name, keywords): 'all' (the 'distinct' input class of MC_OutputWr), then the 'single' input class."""
+    out = [('all', dict(row['all']))]
+    out += [(n, dict(kw)) for n, kw in sorted(row['extra'].items())]
+    if row['singles']:
+        grouped = {k for g in row['groups'] for k in g}
+        units = [g for g in row['groups']] + [(k,) for k in row['all'] if k not in grouped and k not in row['required']]
+        if len(units) > 1 or row['required']:
+            for u in units:
+                kw = {k: row['all'][k] for k in row['required']}
+                kw.update({k: row['all'][k] for k in u})
+                out.append(('single:' + '+'.join(u), kw))
+    return out
+
+
+def sweep_cases(table, pick=None):
+    cases = []
+    for row in table:
+        for name, kw in sweep_variants(row):
+            if pick is not None and not pick(row, name):
+                continue
+            cases.append(dict(tag='sweep|%s|%s' % (row['cls'], name), vec=dict(sweep=row['cls'], variant=name), desc=sweep_desc(row, kw), focus=row['cls']))
+    return cases
+
+
+def sweep_given(table, classes):
+    """Per class: the keywords the 'all' variant sets to a non-default value, whether its numeric scalars are pairwise
+    distinct, and the exempted keywords -- checked against the live constructor signatures by TLC (SweepComplete)."""
+    import inspect
+    out = {}
+    for row in table:
+        if row['cls'] not in classes:
+            continue
+        sig = inspect.signature(classes[row['cls']][1].__init__)
+        given = set()
+        for k, v in row['all'].items():
+            if k not in sig.parameters:
+                raise Machinery('sweep table: %s has no constructor keyword %s' % (row['cls'], k))
+            d = sig.parameters[k].default
+            v = np.array(v[1]) if isinstance(v, tuple) and len(v) == 2 and v[0] == 'ndarray' else v
+            if d is inspect._empty or d is None or not same_value(v, d):
+                given.add(k)
+        nums = [float(v) for v in row['all'].values() if isinstance(v, (int, float)) and not isinstance(v, bool)]
+        out[row['cls']] = dict(given=given, distinct=len(set(nums)) == len(nums), exempt=set(row['exempt']))
+    return out
+
+
 def component_ids(model):
     objs = [model, model._chemistry, model._temperature_profile, model._pressure_profile, model._planet, model._star]
-    objs += list(getattr(model._chemistry, '_gases', [])) + list(model.contribution_list)
+    objs += list(getattr(model._chemistry, '_gases', None) or []) + list(model.contribution_list)
     return {id(o) for o in objs if o is not None}
 
 
@@ -346,7 +547,7 @@ def same_value(a, b):
         x, y = np.asarray(a), np.asarray(b)
         if x.dtype.kind in 'OSU' or y.dtype.kind in 'OSU':
             return [str(i) for i in x.ravel()] == [str(i) for i in y.ravel()]
-        x, y = np.atleast_1d(x).astype(float).ravel(), np.atleast_1d(y).astype(float).ravel()
+        x, y = np.atleast_1d(x).astype(float), np.atleast_1d(y).astype(float)
         return x.shape == y.shape and np.allclose(x, y, rtol=1e-12, atol=0)
     except Exception:
         return False
@@ -374,17 +575,22 @@ def h5_component_keys(path):
     return out
 
 
-def run_model_roundtrips(ctx, combos, tmp, classes):
+def combo_case(combo):
+    tag = '%s|%s|%s+%s|%s' % (combo['model'], combo['temp'], combo['gas1'], combo['gas2'], '+'.join(c[:-12] for c in combo['contribs']))
+    return dict(tag=tag, vec=dict(combo), desc=combo_desc(combo), focus=None)
+
+
+def run_model_roundtrips(ctx, cases, tmp, classes):
+    """write -> taurex_hdf5_to_model -> build -> model() for each case dict(tag, vec, desc, focus)."""
     from taurex.output.hdf5 import HDF5Output
     from taurex.util.hdf5 import taurex_hdf5_to_model
     written = {}
-    for n, combo in enumerate(combos):
-        tag = '%s|%s|%s+%s|%s' % (combo['model'], combo['temp'], combo['gas1'], combo['gas2'], '+'.join(c[:-12] for c in combo['contribs']))
-        vec = dict(combo)
+    for n, case in enumerate(cases):
+        tag, vec, desc, focus = case['tag'], case['vec'], case['desc'], case['focus']
         path = os.path.join(tmp, 'model%d.h5' % n)
         del FX._REC[:]
         try:
-            model = build_model(combo, classes)
+            model = build_desc(desc, classes)
         except KeyError as ex:
             ctx.verdict('ModelBuilds', False, cls='class:%s' % ex.args[0], detail='component class %s is not discoverable' % ex.args[0], vector=vec)
             continue
@@ -394,8 +600,8 @@ def run_model_roundtrips(ctx, combos, tmp, classes):
             with HDF5Output(path) as o:
                 model.write(o)
         except Exception as ex:
-            who = [g for g in (combo['gas1'], combo['gas2']) if g == 'PowerGas/auto']
-            ctx.verdict('ModelWrites', False, cls='write:%s' % (who[0] if who else combo['temp']),
+            who = [g for g, kw in desc['gases'] if g == 'PowerGas' and 'profile_type' not in kw]
+            ctx.verdict('ModelWrites', False, cls='write:%s' % (focus or ('PowerGas/auto' if who else desc['temp'][0])),
                         detail='model.write raised %s: %s  (%s)' % (type(ex).__name__, ex, tag), vector=vec)
             continue
         ctx.verdict('ModelWrites', True, cls='write', vector=vec)
@@ -407,12 +613,14 @@ def run_model_roundtrips(ctx, combos, tmp, classes):
             again.build()
             wn2, spec2 = again.model()[:2]
         except Exception as ex:
-            ctx.verdict('ModelReloads', False, cls='reload:%s' % tag.split('|')[1], detail='taurex_hdf5_to_model raised %s: %s (%s)' % (type(ex).__name__, ex, tag), vector=vec)
+            ctx.verdict('ModelReloads', False, cls='reload:%s' % (focus or desc['temp'][0]),
+                        detail='taurex_hdf5_to_model raised %s: %s (%s)' % (type(ex).__name__, str(ex)[:200], tag), vector=vec)
             continue
+        ctx.verdict('ModelReloads', True, cls='reload', vector=vec)
         reloaded = rec_summary(list(FX._REC), classes, component_ids(again))
         ctx.verdict('SameTypes', sorted(built) == sorted(reloaded) and
                     sorted(type(c).__name__ for c in model.contribution_list) == sorted(type(c).__name__ for c in again.contribution_list),
-                    cls='types', detail='built %s, reloaded %s' % (sorted(built), sorted(reloaded)), vector=vec)
+                    cls='types' + (':' + focus if focus else ''), detail='built %s, reloaded %s' % (sorted(built), sorted(reloaded)), vector=vec)
         lost_here = set()
         for comp, kw in built.items():
             for k, v in kw.items():
@@ -425,12 +633,19 @@ def run_model_roundtrips(ctx, combos, tmp, classes):
                     ok = str(w) in ('auto', str(kw.get('molecule_name')))   # documented: 'auto' = profile of molecule_name
                 elif comp == 'Rodgers2000' and k == 'covariance_matrix' and v is None:
                     continue                                  # the derived default matrix is stored explicitly
+                elif comp == 'Planet' and k in ('planet_sma', 'planet_distance'):
+                    # documented aliases: the semi-major axis that was given must come back under either name
+                    eff = kw.get('planet_sma') if kw.get('planet_sma') is not None else kw.get('planet_distance')
+                    eff2 = reloaded[comp].get('planet_sma') if reloaded[comp].get('planet_sma') is not None else reloaded[comp].get('planet_distance')
+                    ok = same_value(eff, eff2)
+                elif comp == 'CIAContribution' and k == 'cia_pairs' and v is not None and w is not None:
+                    ok = sorted(map(str, v)) == sorted(map(str, w))
                 else:
                     ok = same_value(v, w)
                 if not ok:
                     lost_here.add('%s:%s' % (comp.split(':')[0], k))
                 ctx.verdict('SameValues', ok, cls='%s:%s' % (comp.split(':')[0], k),
-                            detail='%s.%s was %r, after write/rebuild %r' % (comp, k, v, reloaded[comp].get(k)), vector=vec)
+                            detail='%s.%s was %r, after write/rebuild %r (%s)' % (comp, k, v if np.size(v) < 8 else '<array>', w if np.size(w) < 8 else '<array>', tag), vector=vec)
         same = spec.shape == spec2.shape and np.array_equal(wn, wn2) and np.allclose(spec, spec2, rtol=1e-12, atol=0)
         # a spectrum difference is attributed to the constructor values that did not survive (named in the class)
         ctx.verdict('SameSpectrum', same, cls='spectrum:' + ('+'.join(sorted(lost_here)) if lost_here else 'all-values-kept'),
@@ -440,9 +655,9 @@ def run_model_roundtrips(ctx, combos, tmp, classes):
     return written
 
 
-def gen_output_reg(classes, written):
-    import inspect
+def gen_output_reg(classes, written, sweep=None):
     rows = []
+    sweep = sweep or {}
     for cname in sorted(written):
         if cname not in classes:
             continue
@@ -451,16 +666,18 @@ def gen_output_reg(classes, written):
         supplied = []
         if cname == 'Planet':
             supplied = ['planet_sma']        # documented alias of planet_distance
-        if cname == 'Rodgers2000':
-            supplied = []
         if kind == 'model':
             supplied = ['planet', 'star', 'chemistry', 'temperature_profile', 'pressure_profile', 'nlayers', 'atm_min_pressure', 'atm_max_pressure']
-        rows.append('[name |-> %s, params |-> %s, written |-> %s, supplied |-> %s]' % (
+        sw = sweep.get(cname, dict(given=set(names), distinct=True, exempt=set()))
+        rows.append('[name |-> %s, params |-> %s, written |-> %s, supplied |-> %s, given |-> %s, exempt |-> %s, distinct |-> %s]' % (
             FX.tla_str(cname), FX.tla_set(FX.tla_str(x) for x in names), FX.tla_set(FX.tla_str(x) for x in sorted(written[cname])),
-            FX.tla_set(FX.tla_str(x) for x in supplied)))
+            FX.tla_set(FX.tla_str(x) for x in supplied), FX.tla_set(FX.tla_str(x) for x in sorted(sw['given'])),
+            FX.tla_set(FX.tla_str(x) for x in sorted(sw['exempt'])), 'TRUE' if sw['distinct'] else 'FALSE'))
     return ('----------------------------- MODULE OutputReg -----------------------------\n'
-            '\\* GENERATED by harness/drivers/C16.py: constructor keywords (inspect.signature) and the dataset names\n'
-            '\\* found in the ModelParameters groups that the components\' write() methods produced.\n'
+            '\\* GENERATED by harness/drivers/C16.py: constructor keywords (inspect.signature), the dataset names found in the\n'
+            '\\* ModelParameters groups that the components\' write() methods produced, and the component sweep (given = keywords\n'
+            '\\* set to a non-default value by the "all" variant, exempt = keywords deliberately left out, distinct = its numeric\n'
+            '\\* values are pairwise distinct).\n'
             'MCComponents == {\n  ' + ',\n  '.join(rows) + '}\n'
             '=============================================================================\n')
 
@@ -539,15 +756,291 @@ def run_spectrum_outputs(ctx, keytable, tmp, classes):
     return events
 
 
+# ---------------------------------------------------------------------------- output size at every place it is consumed
+def tau_events_of_block(block, caller, binner, size, where, with_spectra):
+    """block: a nested dict / h5py group holding a spectrum dictionary ('Spectra' level) or a contributions block."""
+    import h5py
+
+    def is_group(x):
+        return isinstance(x, (dict, h5py.Group))
+
+    def taus(g):
+        return sorted(k for k in g if not is_group(g[k]) and 'tau' in k)
+    ev = []
+    contribs = block
+    if with_spectra:
+        ev.append(dict(ev='tau', caller=caller, place='Spectra', binner=binner, size=size, tau=taus(block), group=where))
+        contribs = block['Contributions'] if 'Contributions' in block else {}
+    n = 0
+    for c in contribs:
+        if not is_group(contribs[c]):
+            continue
+        n += 1
+        ev.append(dict(ev='tau', caller=caller, place='Contribution', binner=binner, size=size, tau=taus(contribs[c]), group='%s/%s' % (where, c)))
+        for comp in contribs[c]:
+            if is_group(contribs[c][comp]):
+                ev.append(dict(ev='tau', caller=caller, place='Component', binner=binner, size=size, tau=taus(contribs[c][comp]),
+                               group='%s/%s/%s' % (where, c, comp)))
+    return ev, n
+
+
+def program_par(xdir, binning, obs, retrieval):
+    L = ['[Global]', 'xsec_path = %s' % xdir,
+         '[Chemistry]', 'chemistry_type = taurex', 'fill_gases = H2, He', 'ratio = 0.17',
+         '    [[H2O]]', '    gas_type = constant', '    mix_ratio = 1e-4',
+         '[Temperature]', 'profile_type = isothermal', 'T = 1200',
+         '[Pressure]', 'profile_type = simple', 'nlayers = 10', 'atm_min_pressure = 1e-1', 'atm_max_pressure = 1e6',
+         '[Planet]', 'planet_type = simple', 'planet_mass = 1.0', 'planet_radius = 1.0',
+         '[Star]', 'star_type = blackbody', 'temperature = 5500', 'radius = 1.0',
+         '[Model]', 'model_type = transmission', '    [[Absorption]]', '    [[Rayleigh]]']
+    if binning == 'simple':
+        L += ['[Binning]', 'bin_type = manual', 'wavenumber_grid = 500, 1900, 8']
+    elif binning == 'flux':
+        L += ['[Binning]', 'bin_type = manual', 'accurate = True', 'wavenumber_grid = 500, 1900, 8']
+    elif binning == 'observed':
+        L += ['[Observation]', 'observed_spectrum = %s' % obs]
+    if retrieval:
+        L += ['[Optimizer]', 'optimizer = nestle', 'num_live_points = 5', 'tol = 50.0',
+              '[Fitting]', 'planet_radius:fit = True', 'planet_radius:bounds = 0.9, 1.1', 'T:fit = False', 'H2O:fit = False']
+    return '\n'.join(L) + '\n'
+
+
+def run_program(par_text, flags, tmp):
+    """One complete run of the taurex program (taurex.py main) in this process; returns the path of its output file and the
+    citation strings output_citations handed to the writer."""
+    import contextlib
+    import io
+    import sys
+    import taurex.taurex as T
+    from taurex.cache import OpacityCache
+    from taurex.log import disableLogging
+    par = os.path.join(tmp, 'prog.par')
+    out = os.path.join(tmp, 'prog.h5')
+    with open(par, 'w') as f:
+        f.write(par_text)
+    if os.path.exists(out):
+        os.unlink(out)
+    OpacityCache().clear_cache()
+    cites = []
+    orig = T.output_citations
+
+    def recording(*a, **kw):
+        r = orig(*a, **kw)
+        cites.append(r)
+        return r
+    argv = sys.argv
+    sys.argv = ['taurex', '-i', par, '-o', out] + list(flags)
+    buf = io.StringIO()
+    T.output_citations = recording
+    # the program logs through handlers bound to the real stderr and prints tables: silence it at descriptor level
+    sys.stdout.flush()
+    sys.stderr.flush()
+    saved = os.dup(1), os.dup(2)
+    log = os.open(os.path.join(tmp, 'prog.log'), os.O_WRONLY | os.O_CREAT | os.O_TRUNC)
+    try:
+        os.dup2(log, 1)
+        os.dup2(log, 2)
+        with contextlib.redirect_stdout(buf), contextlib.redirect_stderr(buf):
+            T.main()
+    finally:
+        sys.stdout.flush()
+        sys.stderr.flush()
+        os.dup2(saved[0], 1)
+        os.dup2(saved[1], 2)
+        for fd in saved + (log,):
+            os.close(fd)
+        T.output_citations = orig
+        sys.argv = argv
+        disableLogging()
+    if not os.path.exists(out):
+        raise Machinery('the taurex program wrote no output file:\n' + buf.getvalue()[-800:] + open(os.path.join(tmp, 'prog.log')).read()[-800:])
+    return out, (cites[-1] if cites else (None, None))
+
+
+def run_size_callers(ctx, tmp, classes, rng, tau_rows):
+    """Events for TLC (Trace_Output, ev = "tau" / "dict"): the optical-depth datasets present in every group written
+    through each caller x binner x requested size; the Bibliography block of every program run."""
+    import h5py
+    from taurex import OutputSize
+    from taurex.binning import FluxBinner, SimpleBinner, NativeBinner
+    from taurex.output.hdf5 import HDF5Output
+    from taurex.util.output import store_contributions
+    from .C15 import xsec_dir
+    q = ctx.tier == 'quick'
+    events = []
+    sizes = dict(heavy=OutputSize.heavy, light=OutputSize.light, lighter=OutputSize.lighter)
+    model = build_model(dict(model='TransmissionModel', temp='Isothermal', gas1='ConstantGas', gas2='ConstantGas',
+                             contribs=('AbsorptionContribution', 'RayleighContribution')), classes)
+    result = model.model()
+    grid = np.linspace(500.0, 1900.0, 8)
+    path = os.path.join(tmp, 'size.h5')
+    for bname, binner in (('native', NativeBinner()), ('simple', SimpleBinner(grid)), ('flux', FluxBinner(grid))):
+        for sname, member in sizes.items():
+            # the member itself and the plain integer of the same value (OutputSize is an IntEnum)
+            for how, size in (('member', member), ('int', int(member))):
+                out = binner.generate_spectrum_output(result, output_size=size)
+                with HDF5Output(path) as o:
+                    o.store_dictionary(out, group_name='Spectra')
+                with h5py.File(path, 'r') as f:
+                    ev, _ = tau_events_of_block(f['Spectra'], 'direct', bname, sname, 'direct(%s)' % how, True)
+                events += ev
+                block = store_contributions(binner, model, output_size=size)
+                with HDF5Output(path) as o:
+                    o.store_dictionary(block, group_name='Contributions')
+                with h5py.File(path, 'r') as f:
+                    ev, n = tau_events_of_block(f['Contributions'], 'contributions', bname, sname, 'store_contributions(%s)' % how, False)
+                if n != 2:
+                    raise Machinery('store_contributions returned %d contribution blocks for a model with 2 contributions' % n)
+                events += ev
+    # the program itself, forward model: no binning section -> native, manual binning -> SimpleBinner / FluxBinner,
+    # an observation -> its FluxBinner; then a retrieval (Priors = program, Solutions = Optimizer.generate_solution)
+    ptmp = os.path.join(tmp, 'program')
+    os.makedirs(ptmp, exist_ok=True)
+    xdir = xsec_dir(ptmp)
+    obs = os.path.join(ptmp, 'obs.dat')
+    with open(obs, 'w') as f:
+        for x in np.linspace(5.5, 20.0, 7):
+            f.write('%.6f %.8e %.3e\n' % (x, 0.0105 + 1e-4 * rng.random(), 5e-5))
+    flags = dict(heavy=[], light=['--light'], lighter=['--lighter'])
+    bib_events = []
+    for binning, bname in (('native', 'native'), ('simple', 'simple'), ('flux', 'flux'), ('observed', 'flux'), ('retrieval', 'flux')):
+        for sname in ('heavy', 'light', 'lighter'):
+            retr = binning == 'retrieval'
+            out, (bib_tex, short) = run_program(program_par(xdir, 'observed' if retr else binning, obs, retr), flags[sname] + (['-R'] if retr else []), ptmp)
+            with h5py.File(out, 'r') as f:
+                o = f['Output']
+                blocks = [('program', o['Priors']['Spectra'], 'Output/Priors/Spectra')] if retr else [('program', o['Spectra'], 'Output/Spectra')]
+                if retr:
+                    sols = [k for k in o['Solutions'] if k.startswith('solution')]
+                    if not sols:
+                        raise Machinery('the retrieval stored no solution')
+                    blocks += [('optimizer', o['Solutions'][k]['Spectra'], 'Output/Solutions/%s/Spectra' % k) for k in sols]
+                for caller, blk, where in blocks:
+                    ev, n = tau_events_of_block(blk, caller, bname, sname, '%s[%s]' % (where, binning), True)
+                    want = {(r['caller'], r['place'], r['binner'], r['size']): r['tau'] for r in tau_rows}
+                    if n != 2 and want[(caller, 'Contribution', bname, sname)]:
+                        # the program swallows every exception of store_contributions: optical depths the table requires are lost
+                        ev.append(dict(ev='tau', caller=caller, place='Contribution', binner=bname, size=sname, tau=['<no Contributions block: %d>' % n],
+                                       group='%s[%s]/Contributions' % (where, binning)))
+                    events += ev
+                if bib_tex is not None and (binning in ('native', 'retrieval') or not q):
+                    items = dict(bibtex=dict(k='str', v=tok(bib_tex)), short_form=dict(k='str', v=tok(short)))
+                    tree = read_tree(f['Bibliography']) if 'Bibliography' in f else dict(n='error', why='no Bibliography group')
+                    bib_events.append(dict(ev='dict', id='bib:program:%s:%s' % (binning, sname), items=items, tree=tree, cls='bib:program'))
+    return events, bib_events
+
+
+# ---------------------------------------------------------------------------- the strings the library itself stores
+def citable_classes(classes):
+    from taurex.data.citation import Citable
+    seen, todo = {}, [Citable]
+    while todo:
+        k = todo.pop()
+        for sub in k.__subclasses__():
+            if sub not in seen:
+                seen[sub] = True
+                todo.append(sub)
+    for kind, k in classes.values():
+        if isinstance(k, type) and issubclass(k, Citable):
+            seen[k] = True
+    return sorted((k for k in seen if k.__module__.startswith('taurex.')), key=lambda k: (k.__module__, k.__name__))
+
+
+def run_bibliography(ctx, tmp, classes):
+    """For every built-in class that carries citations: the two strings the program stores (short form and BibTeX), written
+    the way taurex.py writes them (Bibliography group, write_string) and through store_dictionary -> 'dict' events."""
+    import h5py
+    from taurex.data.citation import Citable, to_bibtex, construct_nice_printable_string
+    from taurex.output.hdf5 import HDF5Output
+    path = os.path.join(tmp, 'bib.h5')
+    events, nonascii = [], 0
+    for k in citable_classes(classes):
+        try:
+            inst = object.__new__(k)
+            entries = Citable.citations(inst)
+        except Exception:
+            continue
+        if not entries:
+            continue
+        short, bib = '\n'.join(construct_nice_printable_string(e) for e in entries), to_bibtex(entries)     # = Citable.nice_citation
+        nonascii += any(ord(c) > 126 for c in short + bib)
+        items = dict(bibtex=dict(k='str', v=tok(bib)), short_form=dict(k='str', v=tok(short)))
+        try:
+            with HDF5Output(path) as o:
+                g = o.create_group('Bibliography')
+                g.write_string('short_form', short)
+                g.write_string('bibtex', bib)
+                o.store_dictionary(dict(bibtex=bib, short_form=short), group_name='D')
+            with h5py.File(path, 'r') as f:
+                t1, t2 = read_tree(f['Bibliography']), read_tree(f['D'])
+        except Exception as ex:
+            t1 = t2 = dict(n='error', why=type(ex).__name__, msg=str(ex)[:160])
+        events.append(dict(ev='dict', id='bib:write_string:' + k.__name__, items=items, tree=t1, cls='bib:' + k.__name__))
+        events.append(dict(ev='dict', id='bib:store_dictionary:' + k.__name__, items=items, tree=t2, cls='bib:' + k.__name__))
+    if len(events) < 10 or not nonascii:
+        raise Machinery('bibliography binding is vacuous: %d events, %d classes with non-ASCII citations' % (len(events), nonascii))
+    return events
+
+
 # ---------------------------------------------------------------------------- main
+# Findings on the unchanged tree that this check proposes as known (the coordinator owns known_findings.json; until an
+# entry with the same id is there, the proposal is matched here so that every OTHER violation is still reported).
+PROPOSED_FINDINGS = [
+    dict(property='C16', id='L-C16g', status='known', clause='(ModelReloads|WriteCoversCtor)',
+         cls='(reload:)?(TemperatureFile|FilePressureProfile|ArrayPressureProfile|ChemistryFile)(:.*)?',
+         what='(proposed) a model whose temperature / pressure / chemistry comes from an external file or a positional array '
+              '(TemperatureFile, FilePressureProfile, ArrayPressureProfile, ChemistryFile) cannot be rebuilt from its HDF5 file: write() '
+              'stores none of the constructor arguments (file name, columns, units, the array; ChemistryFile: not its gases), so '
+              'taurex_hdf5_to_model raises (np.loadtxt(None), missing positional argument "array", gases=None)'),
+]
+
+
+def propose_findings(ctx):
+    have = {f.get('id') for f in ctx.findings}
+    for f in PROPOSED_FINDINGS:
+        if f['id'] not in have:
+            ctx.findings.append(dict(f))
+
+
+def sweep_pick(ctx, rng):
+    """quick: every 'all' / named variant and a seeded third of the one-keyword variants; thorough: everything."""
+    if ctx.tier != 'quick':
+        return None
+    keep = {}
+
+    def pick(row, name):
+        if not name.startswith('single:'):
+            return True
+        key = (row['cls'], name)
+        if key not in keep:
+            keep[key] = rng.random() < 0.34 or name.endswith(('bottomP', 'topP', 'P_surface', 'P_top'))
+        return keep[key]
+    return pick
+
+
 def run(ctx):
+    import time
     q = ctx.tier == 'quick'
     rng = random.Random(ctx.seed * 7907 + 16)
+    propose_findings(ctx)
+    t0 = [time.time()]
+
+    def lap(what):
+        if os.environ.get('C16_PROFILE'):
+            print('  [C16 %-28s %6.1f s]' % (what, time.time() - t0[0]))
+        t0[0] = time.time()
     ctx.bounds = dict(tier=ctx.tier, dictionaries='all dictionaries over 22 leaf values (every value kind; rectangular, ragged, string, dict-valued '
-                      'sequences), ' + ('2 top-level keys, depth 2' if q else '3 top-level keys, depth 2; export: depth 3'),
-                      random_dictionaries=400 if q else 4000, model_roundtrips=14 if q else 80,
-                      spectrum_outputs='3 binners x 3 output sizes x (uniform, unsorted non-uniform, dyadic) grids')
-    ctx.assumptions = ['h5py reads back what HDF5Output wrote (Load = the h5py view)', 'names are ASCII <= 64 characters without "/" and no key is another key followed by digits',
+                      'sequences) and over the 18 leaves of the string-alphabet catalogue (empty, blanks, newlines, accents, typographic quotes, micro '
+                      'sign, BibTeX block; scalars, lists, tuples, nested sequences, dictionaries in lists), '
+                      + ('2 top-level keys, depth 2' if q else '3 top-level keys, depth 2; export: depth 3'),
+                      random_dictionaries=400 if q else 4000, model_roundtrips='pairwise cover (%d) + component sweep' % (8 if q else 60),
+                      spectrum_outputs='3 binners x 3 output sizes x (uniform, unsorted non-uniform, dyadic) grids; output size consumed through '
+                      'direct calls (member and int), store_contributions, the taurex program (5 binning set-ups) and Optimizer.generate_solution',
+                      bibliography='short form and BibTeX of every built-in class that carries citations')
+    ctx.assumptions = ['h5py reads back what HDF5Output wrote (Load = the h5py view)',
+                       'names are ASCII <= 64 characters without "/" and no key is another key followed by digits',
+                       'strings hold no NUL character; an entry of a string list / tuple is at most 64 bytes of UTF-8 (S64 by design)',
+                       'the per-contribution blocks of a run are stored one step lighter than the run (the size - 3 of both callers)',
                        'constructor arguments are observed by signature-preserving wrappers installed from outside the repository',
                        'TLC + CommunityModules Json/IOUtils']
     tmp = tempfile.mkdtemp(prefix='c16_')
@@ -557,58 +1050,96 @@ def run(ctx):
         r = ctx.check_spec('exhaustive', 'MC_Output', 'MC_Output_%s.cfg' % ctx.tier)
         ctx.exhaustive = True
         keytable = r.tagged('KEYS')[0]
+        tau_rows = r.tagged('TAU')[0]
+        ctx.check_spec('exhaustive-strings', 'MC_Output', 'MC_OutputStr_%s.cfg' % ctx.tier)
         ctx.expect_refuted('numpy2-valueerror-not-caught', 'MC_Output', 'MC_Output_numpy2.cfg', 'RoundTrip')
+        ctx.expect_refuted('size-by-identity', 'MC_Output', 'MC_Output_sizeident.cfg', 'SizeArith')
+        for c in ('distinct', 'single'):
+            ctx.check_spec('writer-lemma-' + c, 'MC_OutputWr', 'MC_OutputWr_%s.cfg' % c)
+        ctx.expect_refuted('writer-lemma-any-values', 'MC_OutputWr', 'MC_OutputWr_any.cfg', 'Exposes')
+        lap('design')
         # 2. binding A: exported dictionaries through HDF5Output / h5py
-        ex = run_tlc('MC_Output', 'EX_Output_%s.cfg' % ctx.tier, workers=1)
-        ctx.add_tlc('export', ex, counts=False)
-        vecs = ex.tagged('VEC')
-        if not vecs:
-            raise Machinery('no dictionary exported')
-        if not q:
-            pass
-        n = run_dict_vectors(ctx, vecs, tmp, rng)
+        n = 0
+        for cfg in ('EX_Output_%s.cfg', 'EX_OutputStr_%s.cfg'):
+            ex = run_tlc('MC_Output', cfg % ctx.tier, workers=1)
+            ctx.add_tlc('export' + ('-strings' if 'Str' in cfg else ''), ex, counts=False)
+            vecs = ex.tagged('VEC')
+            if not vecs:
+                raise Machinery('no dictionary exported by %s' % cfg)
+            n += run_dict_vectors(ctx, vecs, tmp, rng)
+            ctx.add_sample(dict(dictionary=vecs[len(vecs) // 3]['dict']))
         ctx.note('%d exported dictionaries stored and reloaded' % n)
-        ctx.add_sample(dict(dictionary=vecs[len(vecs) // 3]['dict']))
+        lap('dict vectors')
         # 3. spectrum outputs
         for kind, k in classes_by_name().values():
             FX._wrap_init(k)
         classes = classes_by_name()
         opacities()
         grid_events = run_spectrum_outputs(ctx, keytable, tmp, classes)
-        # 4. binding B: random dictionaries + exact grid relations, validated by TLC
-        events = run_dict_traces(ctx, 400 if q else 4000, tmp, rng) + grid_events
+        lap('spectrum outputs')
+        tau_events, prog_bib = run_size_callers(ctx, tmp, classes, rng, tau_rows)
+        lap('size callers')
+        opacities()
+        bib_events = run_bibliography(ctx, tmp, classes) + prog_bib
+        lap('bibliography')
+        # 4. binding B: random dictionaries, bibliography strings, tau datasets per caller and exact grid relations, validated by TLC
+        events = run_dict_traces(ctx, 400 if q else 4000, tmp, rng) + bib_events + tau_events + grid_events
         for i, e in enumerate(events):
             e['l'] = i
-        accepted, bad, res = validate_trace('Trace_Output', 'Trace_Output.cfg', events)
+        accepted, bad, res = validate_trace('Trace_Output', 'Trace_Output.cfg', [{k: v for k, v in e.items() if k not in ('cls', 'group')} for e in events])
         ctx.add_tlc('trace', res, counts=False)
         if res.postcondition_false and not bad:
             raise Machinery('trace spec did not consume the whole trace:\n' + res.out[-1500:])
         badl = {b['l'] for b in bad}
         ctx.traces += len(events)
         for e in events:
-            if e['ev'] == 'dict':
+            if e['ev'] == 'dict' and 'cls' in e:
+                ctx.verdict('RoundTrip', e['l'] not in badl, cls=e['cls'],
+                            detail='%s: the stored citation strings came back changed: %s' % (e['id'], json.dumps(e['tree'])[:240]), vector=dict(bib=e['id']))
+            elif e['ev'] == 'dict':
                 ctx.verdict('RoundTrip', e['l'] not in badl, cls='trace:' + dict_cls(e['items']),
                             detail='TLC rejected the reloaded tree %s' % json.dumps(e['tree'])[:300], vector=dict(trace=True, items=e['items']))
+            elif e['ev'] == 'tau':
+                ctx.verdict('TauBySize', e['l'] not in badl, cls='%s:%s:%s:%s' % (e['caller'], e['place'], e['binner'], e['size']),
+                            detail='%s holds the optical-depth datasets %s; the specification (TauAt) requires %s' % (
+                                e['group'], e['tau'], [r['tau'] for r in tau_rows if (r['caller'], r['place'], r['binner'], r['size']) ==
+                                                      (e['caller'], e['place'], e['binner'], e['size'])]), vector=dict(tau=True, caller=e['caller']))
             else:
                 ctx.verdict('GridRelationsExact', e['l'] not in badl, cls='flux:dyadic' if e['id'].startswith('flux') else 'simple:dyadic',
                             detail='bin %s: wn=%s w=%s stored wl=%s wlwidth=%s' % (e['id'], e['wn'], e['w'], e['wl'], e['wlw']), vector=dict(trace=True, grid=e))
-        good = [e for e in events if e['ev'] == 'dict' and e['l'] not in badl and e['tree'].get('n') == 'group' and e['tree']['m']]
+        # canaries: one per event kind that carries a new clause
+        good = [e for e in events if e['ev'] == 'dict' and 'cls' not in e and e['l'] not in badl and e['tree'].get('n') == 'group' and e['tree']['m']]
         if not good:
             raise Machinery('no accepted event for the canary')
         c = json.loads(json.dumps(good[len(good) // 2]))
         name = sorted(c['tree']['m'])[0]
         c['tree']['m'][name + 'x'] = c['tree']['m'].pop(name)
-        c['l'] = 0
-        ok2, bad2, _ = validate_trace('Trace_Output', 'Trace_Output.cfg', [c])
-        if ok2 or not bad2:
-            raise Machinery('canary accepted: trace validation is vacuous')
-        # 5. model write -> rebuild
-        gases = ['ConstantGas', 'TwoLayerGas', 'TwoPointGas', 'PowerGas', 'PowerGas/auto']
+        canaries = [c]
+        gb = [e for e in bib_events if e['l'] not in badl and '<U+' in e['items']['bibtex']['v']]
+        if not gb:
+            raise Machinery('no accepted bibliography event with a non-ASCII character for the canary')
+        c = json.loads(json.dumps(gb[0]))
+        c['tree']['m']['bibtex']['v'] = re.sub(r'<U\+[0-9A-F]{4,6}>', '', c['tree']['m']['bibtex']['v'])      # the characters dropped
+        canaries.append(c)
+        gt = [e for e in tau_events if e['l'] not in badl and e['size'] == 'lighter' and e['place'] == 'Component' and e['caller'] in ('program', 'optimizer')]
+        if not gt:
+            raise Machinery('no accepted program/optimizer tau event for the canary')
+        c = json.loads(json.dumps(gt[0]))
+        c['tau'] = ['binned_tau']
+        canaries.append(c)
+        for i, c in enumerate(canaries):
+            c['l'] = i
+        ok2, bad2, _ = validate_trace('Trace_Output', 'Trace_Output.cfg', [{k: v for k, v in e.items() if k not in ('cls', 'group')} for e in canaries])
+        if ok2 or {b['l'] for b in bad2} != set(range(len(canaries))):
+            raise Machinery('canary accepted: trace validation is vacuous (%s)' % bad2)
+        lap('trace+canary')
+        # 5. model write -> rebuild: pairwise cover of component combinations, then the component sweep
+        gases = ['ConstantGas', 'TwoLayerGas', 'PowerGas', 'PowerGas/auto']      # TwoPointGas (L-C16f) has its own sweep case
         allc = [dict(model=m, temp=t, gas1=g1, gas2=g2, contribs=cs) for m in MODELS for t in TEMPS for g1 in gases for g2 in gases
                 for cs in CONTRIB_SETS if g1 <= g2 and not (g1 == g2 == 'PowerGas/auto')]
         rng.shuffle(allc)
         chosen, pairs = [], set()
-        want = 14 if q else 80
+        want = 8 if q else 60
         for c in allc:        # greedy pairwise cover, then fill up
             feats = [('m', c['model']), ('t', c['temp']), ('g', c['gas1']), ('g', c['gas2']), ('c', c['contribs'])]
             ps = {frozenset(p) for p in itertools.combinations(feats, 2)} | {frozenset([f]) for f in feats}
@@ -621,10 +1152,18 @@ def run(ctx):
             if not feats <= singles:
                 chosen.append(c)
                 singles |= feats
-        written = run_model_roundtrips(ctx, chosen, tmp, classes)
-        ctx.note('%d models written and rebuilt' % len(chosen))
-        # 6. ModelFile / Rebuild: constructor keywords that no write() stores
-        sd = make_spec_dir(gen_output_reg(classes, written))
+        table = sweep_table(sweep_files(tmp))
+        missing = sorted(set(n for n, (kind, k) in classes.items() if kind in ('temperature', 'chemistry', 'gas', 'pressure', 'planet', 'star', 'model', 'contribution'))
+                         - {row['cls'] for row in table} - set(NOT_SWEPT))
+        if missing:
+            raise Machinery('built-in component classes without a sweep entry: %s' % missing)
+        cases = [combo_case(c) for c in chosen] + sweep_cases(table, sweep_pick(ctx, rng))
+        written = run_model_roundtrips(ctx, cases, tmp, classes)
+        ctx.note('%d models written and rebuilt (%d combinations, %d sweep variants of %d component classes)' % (
+            len(cases), len(chosen), len(cases) - len(chosen), len(table)))
+        lap('model roundtrips')
+        # 6. ModelFile / Rebuild: constructor keywords that no write() stores; the sweep covers every keyword
+        sd = make_spec_dir(gen_output_reg(classes, written, sweep_given(table, classes)))
         rb = run_tlc('MC_OutputReb', 'MC_OutputReb.cfg', spec_dir=sd, workers=1)
         ctx.add_tlc('rebuild-table', rb, counts=False)
         rows = rb.tagged('REB')
@@ -642,10 +1181,17 @@ def run(ctx):
         if sd:
             shutil.rmtree(sd, ignore_errors=True)
         try:
-            from taurex.cache import OpacityCache
-            OpacityCache().clear_cache()
+            from ..fixtures import reset_caches
+            reset_caches()
         except Exception:
             pass
+
+
+# built-in classes the sweep cannot build here, with the reason
+NOT_SWEPT = {
+    'PhoenixStar': 'get_avail_phoenix uses np.float: the class cannot be constructed on this interpreter (and needs PHOENIX FITS files)',
+    'AutoChemistry': 'abstract base class of the file / plugin chemistries',
+}
 
 
 def replay(ctx, violations):
